@@ -1,9 +1,9 @@
 #!/bin/sh
 # usage: mk_seed_wt.sh C29  -> creates /tmp/wt/seed-C29 (git worktree of /repo HEAD, with a copy of the dep build cache)
-set -e
+set +e
 id=$1
 d=/tmp/wt/seed-$id
 git -C /repo worktree add --detach $d HEAD >/dev/null 2>&1
-cp -a ${SEED_TARGET_SRC:-/tmp/wt/verify/target} $d/target
+cp -a ${SEED_TARGET_SRC:-/tmp/wt/verify/target} $d/target 2>/dev/null
 mkdir -p /tmp/seedout/$id
 echo $d
